@@ -947,6 +947,7 @@ func (c *Client) clockUpdate(update *MsgSrvUpdate, queueLocked bool) bool {
 	// the clock is known to be stale until the pending full sync lands, and the
 	// checksum is too weak to be trusted with a stale clock
 	if c.syncWanted.Load() > 0 {
+		verifPoint(c, "cli:mismatch")
 		return false
 	}
 
